@@ -4,3 +4,9 @@ pub trait ExToString {
     type ExternalTraitSpecificationFor: std::string::ToString;
     fn to_string(&self) -> std::string::String;
 }
+// either::Either appears in signatures of printer functions that are external_body here (never inspected by a contract)
+#[verifier::external_type_specification]
+#[verifier::external_body]
+#[verifier::reject_recursive_types(L)]
+#[verifier::reject_recursive_types(R)]
+pub struct ExEither<L, R>(either::Either<L, R>);
